@@ -14,3 +14,6 @@ func Listeners(l []net.Listener) []net.Listener { return l }
 
 // ReadWindow returns the sender's file read window size to use.
 func ReadWindow(blockLength, v int32) int32 { return v }
+
+// BlockLength returns the delta block length to use for a file of the given size.
+func BlockLength(fileLen int64, v int32) int32 { return v }
